@@ -163,9 +163,11 @@ class EvolvableMultiInput(EvolvableModule):
 
         self.observation_space = observation_space
         self.num_outputs = num_outputs
-        self.cnn_config = cnn_config or DefaultCnnConfig
-        self.mlp_config = mlp_config or DefaultMlpConfig
-        self.lstm_config = lstm_config or DefaultLstmConfig
+        # NOTE: every network works on its own copy of the (default) configurations: they are
+        # part of the init dict and are modified in place elsewhere (e.g. multi-agent block type)
+        self.cnn_config = copy.deepcopy(cnn_config or DefaultCnnConfig)
+        self.mlp_config = copy.deepcopy(mlp_config or DefaultMlpConfig)
+        self.lstm_config = copy.deepcopy(lstm_config or DefaultLstmConfig)
         self._init_dicts = init_dicts or {}
         self._activation = None
         self.mlp_name = None
